@@ -472,6 +472,32 @@ def jsonable(c):
     return json.loads(json.dumps(c, default=str))
 
 
+def pregen(ctx):
+    """tie (T): re-translate set_seed / rand_generator / noise (utils/random.py), get_seed / set_seed (datasets/_seed.py) and the seed table
+    of Reservoir.__init__ (+ reservoirs/base.py initialize / initialize_feedback) of the tree under test into coq/gen/Gen_seed.v
+    (translator vlib/py2coq_seed.py, vocabulary coq/base/SeedPrelude.v); proofs/Gen_seed_eq.v then proves them equal to model/Prov.v.
+    Returns None or the error text; on rejection a stub that does not compile replaces the file (never a stale model)."""
+    import os
+    import traceback
+    from vlib import py2coq_seed
+    path = os.path.join(core.COQ, "gen", "Gen_seed.v")
+    os.makedirs(os.path.dirname(path), exist_ok=True)
+    err = None
+    try:
+        text = py2coq_seed.emit(core.REPO)
+    except py2coq_seed.Reject as ex:
+        err = "translation rejected: %s" % ex
+    except Exception:
+        err = "translator exception: " + traceback.format_exc()[-1500:]
+    if err is not None:
+        text = "(* GENERATED: translation of the seed plumbing FAILED -- %s *)\nDefinition translation_failed : True := 0.\n" % (
+            err.replace("*)", "* )").replace("(*", "( *"))
+    old = open(path).read() if os.path.exists(path) else None
+    if old != text:               # keep the mtime (and the compiled cone) when nothing changed
+        with open(path, "w") as f:
+            f.write(text)
+    return None if err is None else "unit seed (set_seed, rand_generator, noise, datasets seed, Reservoir seed table): %s" % err
+
 
 def correspondence(ctx):
     rng = ctx.rng("corr")
